@@ -5,7 +5,7 @@ ID = 'C13'
 TRANSLATOR = []
 COQ_EXEC = ['exec.X_slice']
 COQ_IMPORTS = 'From PB Require Import model.M_slice.\n'
-COQ_PRELUDE = ''
+COQ_PRELUDE = 'Definition run_stitch_seq (l : list (Z * string * nat * list ts * bounds_arg)) : J := JL (map run_stitch l).\n'
 PER_FILE = 500
 CASE_TIMEOUT = 10
 RULE = ('timestamps are whole hours from 2020-01-01 (index points on a 6-hour grid with gaps, bounds on a 3-hour grid so that they fall '
@@ -17,7 +17,7 @@ RULE = ('timestamps are whole hours from 2020-01-01 (index points on a 6-hour gr
         'bound positions x 4 brackets. stitch cases: 1-4 series, increasing / non-strict / decreasing bound lists given as ub, lb or both, '
         'n in 1..number of series. unslice cases: stitch, df_unslice, stitch again. Every result is compared cell by cell (index and values) '
         'in Coq with M_slice; the oracle recomputes from the property text which timestamps belong to the window / to which interval, and '
-        'from which series each column must come, by plain loops over the real output. Stream G (1 500): index shuffled / newest-first / with 2-3 rows per timestamp, all brackets, dates and times of day, wrap-around (rows sharing a timestamp are compared as a multiset after sort_index). Stitched series carry names in 50 % of the list cases (distinct codes, all the same name, some unnamed, ints) and are one-column frames in 15 %. Varied in the random streams: bounds as datetime / date / Timestamp / np.datetime64 / YYYY-MM-DD / yyyymmdd, eras 1700 / 1970 / 2020 / 2250, keyword and tuple call forms, Series name / column labels / index name, DatetimeIndex input, 150-400 row series, up to 8 series, one series with several windows. '
+        'from which series each column must come, by plain loops over the real output. Stream G (1 500): index shuffled / newest-first / with 2-3 rows per timestamp, all brackets, dates and times of day, wrap-around (rows sharing a timestamp are compared as a multiset after sort_index). The series list and the bound lists of a stitch call are objects owned by the caller: they are re-read after every call, and stream C2 (500) reuses the same objects for 2-3 calls in a row (n = 1 then another n; decreasing and increasing lists; ub / lb / both modes), each call judged on its own. Stitched series carry names in 50 % of the list cases (distinct codes, all the same name, some unnamed, ints) and are one-column frames in 15 %. Varied in the random streams: bounds as datetime / date / Timestamp / np.datetime64 / YYYY-MM-DD / yyyymmdd, eras 1700 / 1970 / 2020 / 2250, keyword and tuple call forms, Series name / column labels / index name, DatetimeIndex input, 150-400 row series, up to 8 series, one series with several windows. '
         'non-trivial = a bound coincides with an index point, '
         'a time-of-day bound, or more than one series; distinct by full case')
 EXPLANATION = ('theorems C13_* (coq/props/C13.v) hold for series of any length and any bounds: a single slice is exactly the filter of the rows '
@@ -46,6 +46,8 @@ PINF, NINF = 10 ** 9, -10 ** 9      # +inf / -inf cells: values are carried, nev
 
 # ------------------------------------------------------------------ Coq side
 def coq_runner(case):
+    if case['kind'] == 'stitch' and case.get('n_seq'):
+        return 'run_stitch_seq'
     return {'slice': 'run_slice', 'stitch': 'run_stitch', 'unslice': 'run_unslice'}[case['kind']]
 
 def _cell(c):
@@ -70,7 +72,8 @@ def coq_case(case):
     if k == 'stitch':
         b = {'ub': lambda: 'UbList ' + _zl(case['ubs']), 'lb': lambda: 'LbList ' + _zl(case['lbs']),
              'both': lambda: 'BothLists %s %s' % (_zl(case['lbs']), _zl(case['ubs']))}[case['mode']]()
-        return '(%d, %s, %d%%nat, %s, (%s))' % (DAY, _oc(case), case['n'], ss, b)
+        one = lambda n: '(%d, %s, %d%%nat, %s, (%s))' % (DAY, _oc(case), n, ss, b)
+        return '[' + '; '.join(one(n) for n in case['n_seq']) + ']' if case.get('n_seq') else one(case['n'])
     return '(%d, %d%%nat, %s, %s)' % (DAY, case['n'], ss, _zl(case['ubs']))
 
 # ------------------------------------------------------------------ implementation side
@@ -230,12 +233,39 @@ def stitch_bounds(case):
         if any(a > b for a, b in zip(lbs, lbs[1:])): lbs, ubs, ss = lbs[::-1], ubs[::-1], ss[::-1]
     return ss, [at(x) for x in lbs], [at(x) for x in ubs]
 
-def call_stitch(case, ss_objs, lbs, ubs):
-    kw = {}
-    if lbs is not None: kw['lb'] = py_bound_list(lbs, (lbs or []) + (ubs or []))
-    if ubs is not None: kw['ub'] = py_bound_list(ubs, (lbs or []) + (ubs or []))
-    if case.get('oc') is not None: kw['openclose'] = case['oc']
-    return df_slice(ss_objs, n=case['n'], **kw)
+def stitch_once(case, first, ss_objs, args):
+    """one df_slice(list, lb / ub lists, openclose, n) call judged on its own: (observation, violation, status)"""
+    viol = None
+    before = [observe(s) for s in ss_objs]
+    try:
+        r = df_slice(first, n=case['n'], **args)
+    except Exception as e:
+        name = type(e).__name__
+        expected_err = case['mode'] == 'both' and _dir(case['lbs']) != _dir(case['ubs'])
+        return ['ERR', name], (None if expected_err else 'df_slice raised %s: %s' % (name, str(e)[:100])), name
+    o = observe(r)
+    want_kind = 'D' if (case['n'] > 1 or case.get('elem') == 'D1') else 'S'
+    kind_ok = r is None or o[0] == want_kind
+    if o is not None and case.get('elem') == 'D1' and case['n'] <= 1 and o[0] == 'D' and all(len(row) == 1 for row in o[2]):
+        o = ['S'] + o[1:]        # one-column frames stitched with n = 1 give a one-column frame: same cells as the Series the model returns
+    if [observe(s) for s in ss_objs] != before:
+        viol = 'df_slice modified one of the series'
+    elif not kind_ok:
+        viol = 'stitching %d %s with n=%d returned a %s' % (len(ss_objs), 'one-column frames' if case.get('elem') == 'D1' else 'series', case['n'], o[0])
+    elif not case['ss']:
+        if r is not None: viol = 'empty list of series gave %r' % (o,)
+    else:
+        ss, lbs, ubs = stitch_bounds(case)
+        oc = '(]' if case.get('oc') is None else case['oc']
+        et, er = expected_stitch(ss, lbs, ubs, oc, case['n'])
+        if o[1] != et or o[2] != er:
+            viol = ('df_slice(series %r, lb=%r, ub=%r, %r, n=%d) = index %r values %r; taking interval i from series i (column j from series i+j) gives %r %r'
+                    % (case['ss'], case.get('lbs'), case.get('ubs'), oc, case['n'], o[1], o[2], et, er))
+        elif case['n'] > 1 and list(r.columns) != list(range(r.shape[1])):
+            viol = 'n=%d: the columns are labelled %r, not by position 0..%d (series names %r)' % (case['n'], list(r.columns), r.shape[1] - 1, case.get('names'))
+        elif len(set(o[1])) != len(o[1]) and _strict(case) and closed(oc[0]) != closed(oc[1]):
+            viol = 'a timestamp occurs twice in the stitched result: %r' % (o[1],)
+    return o, viol, 'ok'
 
 def impl(case):
     global UNIT, E0
@@ -294,41 +324,30 @@ def impl(case):
                         % (case['ts'], case['lb'], case['ub'], 'default' if oc is None else oc, o[1], o[2], exp[0], exp[1]))
         return {'status': 'ok', 'obs': o, 'viol': viol}
     if k == 'stitch':
+        # the caller's own argument objects: built once, re-read after every call, and REUSED by the calls of a sequence (n_seq)
         ss_objs = mk_list(case)
-        before = [observe(s) for s in ss_objs]
-        try:
-            if case.get('single'):      # one series, several windows: df_slice(ts, [lb...], [ub...])
-                r = call_stitch(case, ss_objs[0], case['lbs'], case['ubs'])
-            else:
-                r = call_stitch(case, ss_objs, case.get('lbs') if case['mode'] != 'ub' else None, case.get('ubs') if case['mode'] != 'lb' else None)
-        except Exception as e:
-            name = type(e).__name__
-            expected_err = case['mode'] == 'both' and _dir(case['lbs']) != _dir(case['ubs'])
-            return {'status': name, 'obs': ['ERR', name], 'viol': None if expected_err else 'df_slice raised %s: %s' % (name, str(e)[:100])}
-        o = observe(r)
-        want_kind = 'D' if (case['n'] > 1 or case.get('elem') == 'D1') else 'S'
-        kind_ok = r is None or o[0] == want_kind
-        if o is not None and case.get('elem') == 'D1' and case['n'] <= 1 and o[0] == 'D' and all(len(row) == 1 for row in o[2]):
-            o = ['S'] + o[1:]        # one-column frames stitched with n = 1 give a one-column frame: same cells as the Series the model returns
-        if [observe(s) for s in ss_objs] != before:
-            viol = 'df_slice modified one of the series'
-        elif not kind_ok:
-            viol = 'stitching %d %s with n=%d returned a %s' % (len(ss_objs), 'one-column frames' if case.get('elem') == 'D1' else 'series', case['n'], o[0])
-
-        elif not case['ss']:
-            if r is not None: viol = 'empty list of series gave %r' % (o,)
-        else:
-            ss, lbs, ubs = stitch_bounds(case)
-            oc = '(]' if case.get('oc') is None else case['oc']
-            et, er = expected_stitch(ss, lbs, ubs, oc, case['n'])
-            if o[1] != et or o[2] != er:
-                viol = ('df_slice(series %r, lb=%r, ub=%r, %r, n=%d) = index %r values %r; taking interval i from series i (column j from series i+j) gives %r %r'
-                        % (case['ss'], case.get('lbs'), case.get('ubs'), oc, case['n'], o[1], o[2], et, er))
-            elif case['n'] > 1 and list(r.columns) != list(range(r.shape[1])):
-                viol = 'n=%d: the columns are labelled %r, not by position 0..%d (series names %r)' % (case['n'], list(r.columns), r.shape[1] - 1, case.get('names'))
-            elif len(set(o[1])) != len(o[1]) and _strict(case) and closed(oc[0]) != closed(oc[1]):
-                viol = 'a timestamp occurs twice in the stitched result: %r' % (o[1],)
-        return {'status': 'ok', 'obs': o, 'viol': viol}
+        lbs = case.get('lbs') if (case['mode'] != 'ub' or case.get('single')) else None
+        ubs = case.get('ubs') if (case['mode'] != 'lb' or case.get('single')) else None
+        both = (lbs or []) + (ubs or [])
+        args = {}
+        if lbs is not None: args['lb'] = py_bound_list(lbs, both)
+        if ubs is not None: args['ub'] = py_bound_list(ubs, both)
+        if case.get('oc') is not None: args['openclose'] = case['oc']
+        first = ss_objs[0] if case.get('single') else ss_objs
+        ns = case.get('n_seq') or [case['n']]
+        out = []; viol = None; status = 'ok'
+        for q, n in enumerate(ns):
+            snap = (repr(args.get('lb')), repr(args.get('ub')), [id(x) for x in ss_objs])
+            o, v, st = stitch_once(dict(case, n=n), first, ss_objs, args)
+            now = (repr(args.get('lb')), repr(args.get('ub')), [id(x) for x in ss_objs])
+            if now != snap and v is None:
+                what = 'lower-bound list' if now[0] != snap[0] else 'upper-bound list' if now[1] != snap[1] else 'list of series'
+                v = 'df_slice modified the caller\'s %s: %s -> %s' % (what, snap[0] if now[0] != snap[0] else snap[1] if now[1] != snap[1] else 'order', now[0] if now[0] != snap[0] else now[1] if now[1] != snap[1] else 'changed')
+            out.append(o)
+            if st != 'ok': status = st
+            if v and viol is None:
+                viol = v if len(ns) == 1 else 'call %d (n=%d) of a sequence reusing the same series / bound list objects: %s' % (q + 1, n, v)
+        return {'status': status, 'obs': out[0] if not case.get('n_seq') else out, 'viol': viol}
     # unslice round trip
     ss_objs = mk_list(case)
     ubs = [T(u) for u in case['ubs']]
@@ -392,7 +411,7 @@ def shape(case):
     if case['kind'] == 'stitch':
         l = case['lbs'] if case['mode'] == 'lb' else case['ubs']
         return 'stitch:%s:%s:n%d%s%s%s' % (case['mode'], 'inc' if _dir(l) else 'dec', min(case['n'], 3), ':single' if case.get('single') else '',
-                                        ':named' if case.get('names') and any(x is not None for x in case['names']) else '', ':frames' if case.get('elem') == 'D1' else '')
+                                        ':named' if case.get('names') and any(x is not None for x in case['names']) else '', ':frames' if case.get('elem') == 'D1' else '') + (':seq%d' % len(case['n_seq']) if case.get('n_seq') else '')
     return 'unslice:n%d' % min(case['n'], 3)
 
 # ------------------------------------------------------------------ generation
@@ -569,6 +588,26 @@ def gen_cases(rng, tier):
             c['lbs'] = lbs[::-1] if (dec != mism) else lbs
             c['ubs'] = ubs[::-1] if dec else ubs
         cases.append(c)
+    # C2. call sequences that REUSE the same series / bound list objects: stitch with n = 1, then again with another n (re-stitching);
+    #     decreasing and increasing lists, ub / lb / both modes; every call judged on its own
+    for _ in range(500 if quick else 8000):
+        m = rng.choice([2, 3, 3, 4, 6])
+        ss = [rand_series(rng, 1000 * (i + 1)) for i in range(m)]
+        ubs = rand_ubs(rng, m, strict=True)
+        mode = rng.choice(['ub', 'ub', 'lb', 'both'])
+        c = dict(kind='stitch', ss=ss, mode=mode, oc=rng.choice([None, None, '(]', '[)']))
+        dec = rng.random() < 0.6
+        seq = [rng.randrange(1, m + 1) for _ in range(rng.choice([2, 2, 3]))]
+        if rng.random() < 0.5: seq[0], seq[1] = 1, rng.randrange(2, m + 1)
+        c['n_seq'] = seq; c['n'] = seq[0]
+        if mode == 'ub': c['ubs'] = ubs[::-1] if dec else ubs
+        elif mode == 'lb': c['lbs'] = ubs[::-1] if dec else ubs
+        else:
+            lbs = [ubs[0] - 24] + ubs[:-1]
+            c['lbs'] = lbs[::-1] if dec else lbs; c['ubs'] = ubs[::-1] if dec else ubs
+        name_series(rng, c, m)
+        if c.get('elem') == 'D1': c.pop('elem'); 
+        cases.append(decorate(rng, c))
     cases.append(dict(kind='stitch', ss=[], n=1, mode='ub', ubs=[], oc=None))
     # D. df_unslice round trip
     for _ in range(800 if quick else 12000):
@@ -601,7 +640,11 @@ def shrink(case):
         for i, s in enumerate(case['ss']):
             for q in range(len(s) if len(s) > 1 else 0):      # keep one row per series so that the shrunk input still shows data
                 yield dict(case, ss=case['ss'][:i] + [s[:q] + s[q + 1:]] + case['ss'][i + 1:])
-        if case['n'] > 1:
+        if case.get('n_seq') and len(case['n_seq']) > 2:
+            for i in range(len(case['n_seq'])):
+                q = case['n_seq'][:i] + case['n_seq'][i + 1:]
+                yield dict(case, n_seq=q, n=q[0])
+        if case['n'] > 1 and not case.get('n_seq'):
             yield dict(case, n=case['n'] - 1)
 
 LEVEL_TEXT = ('machine-checked Coq theorems (C13_*, series of any length, any bounds, any day length): single slice = filter of the rows inside the '
